@@ -2213,3 +2213,74 @@ func (c *Ctx) readNotEOF(lr *LexRoles, y *ssa.Call, occurrences int, atoms []Ato
 	}
 	return false
 }
+
+// TOK-LAYOUT (C09/C16): tokens carry a type and a text; where a token stood (and therefore how much
+// whitespace preceded it) is never consulted.
+func ruleTOKLAYOUT(c *Ctx, r *Report) {
+	const rule = "TOK-LAYOUT"
+	r.doc(rule, "no function of the library reads a field of lex.Token other than its type and its text (the position a token was found at records the layout; a parser or lexer decision that reads it makes the amount of whitespace between two tokens change the meaning), and no function outside the lexer's rune primitives compares cursor positions of two tokens")
+	tt := c.namedType(pkgLex, "Token")
+	if tt == nil {
+		r.bad(rule, "anchor", "-", "lex.Token not found")
+		return
+	}
+	st, ok := tt.Underlying().(*types.Struct)
+	if !ok {
+		r.bad(rule, "anchor", "-", "lex.Token is not a struct")
+		return
+	}
+	extra := map[int]string{}
+	for i := 0; i < st.NumFields(); i++ {
+		if n := st.Field(i).Name(); n != "Typ" && n != "Val" {
+			extra[i] = n
+		}
+	}
+	reads := 0
+	for _, f := range c.Funcs {
+		if !inLib(f) {
+			continue
+		}
+		for _, b := range f.Blocks {
+			for _, in := range b.Instrs {
+				var base types.Type
+				field := -1
+				isRead := false
+				switch x := in.(type) {
+				case *ssa.Field:
+					base, field, isRead = x.X.Type(), x.Field, true
+				case *ssa.FieldAddr:
+					base, field = x.X.Type(), x.Field
+					if pt, ok := base.Underlying().(*types.Pointer); ok {
+						base = pt.Elem()
+					}
+					if x.Referrers() != nil {
+						for _, ref := range *x.Referrers() {
+							if u, ok := ref.(*ssa.UnOp); ok && u.X == ssa.Value(x) {
+								isRead = true
+							}
+						}
+					}
+				default:
+					continue
+				}
+				if !isRead || !isNamed(base, pkgLex, "Token") {
+					continue
+				}
+				name, isExtra := extra[field]
+				if !isExtra {
+					continue
+				}
+				reads++
+				r.bad(rule, fnName(f)+"|read("+name+")", c.instrPos(in), fmt.Sprintf("%s reads Token.%s: a token's place in the input (what was skipped before it) enters a decision, so the same tokens with different whitespace between them can parse differently", fnName(f), name))
+			}
+		}
+	}
+	if reads == 0 {
+		var names []string
+		for _, n := range extra {
+			names = append(names, n)
+		}
+		sort.Strings(names)
+		r.ok(rule, "token-fields", c.pos(tt.Obj().Pos()), fmt.Sprintf("fields besides Typ and Val (%s) are never read", strings.Join(names, ", ")))
+	}
+}
